@@ -29,6 +29,7 @@
 -/
 import AnnVerif.Model.Node
 import AnnVerif.Model.BitArr
+import AnnVerif.Lemmas.Assembled
 namespace AnnVerif.C08
 open AnnVerif AnnVerif.Node
 
@@ -112,7 +113,9 @@ theorem setProposal_changes_only_if_valid (n : Node) (p : Proposal) (signer : Na
     (hne : setProposal n p signer sigBad ≠ n) :
     n.proposal = none ∧ p.height = n.height ∧ p.round = n.round ∧ n.step < Step.commit ∧
     (p.polRound = -1 ∨ (0 ≤ p.polRound ∧ p.polRound < p.round)) ∧ proposalSigOk n signer sigBad = true ∧
-    setProposal n p signer sigBad = { n with proposal := some p, proposalParts := some p.block, partsComplete := false } := by
+    (setProposal n p signer sigBad = { n with proposal := some p, proposalParts := some p.block, partsComplete := false } ∨
+     (n.cfg.proposalKeepsParts = true ∧ n.proposalParts.isSome = true ∧
+      setProposal n p signer sigBad = { n with proposal := some p })) := by
   unfold setProposal at hne ⊢
   by_cases h0 : n.proposal.isSome = true
   · simp [h0] at hne
@@ -137,7 +140,10 @@ theorem setProposal_changes_only_if_valid (n : Node) (p : Proposal) (signer : Na
               by_cases hp : p.polRound = -1
               · exact Or.inl hp
               · exact Or.inr ⟨Int.not_lt.mp (fun hh => h3 ⟨hp, Or.inl hh⟩), Int.not_le.mp (fun hh => h3 ⟨hp, Or.inr hh⟩)⟩
-            exact ⟨e0, e1.1, e1.2, e2, e3, by simpa using h4, rfl⟩
+            refine ⟨e0, e1.1, e1.2, e2, e3, by simpa using h4, ?_⟩
+            by_cases h5 : n.cfg.proposalKeepsParts = true ∧ n.proposalParts.isSome = true
+            · exact Or.inr ⟨h5.1, h5.2, by simp [h5]⟩
+            · exact Or.inl (by simp [h5])
 
 /-- the signature bit is true only for an untampered signature by the validator the node computed
     as proposer of the round -/
@@ -305,6 +311,67 @@ theorem repaired_straggler_at_height_one_ignored (n : Node) (v : VoteSet.Vote) (
 
 example : (Node.init repaired 1 v4 (some 1) false).cfg.guardNilLastCommit = true ∧
           (Node.init repaired 1 v4 (some 1) false).lastCommit = none := by decide
+
+/-! ### X10: an assembled block keeps its parts (the late proposal) -/
+
+/-- X10 (repaired), over every run: from a fresh node, after ANY sequence of peer messages (any
+    peers, any fields), own queued messages and timeouts, an assembled `ProposalBlock` still has its
+    complete part set, and `finalizeCommit` has never handed an incomplete part set to
+    `BlockStore.SaveBlock` (which panics on one, on the consensus routine). -/
+theorem run_never_saves_incomplete_part_set (height : Int) (vals : ValSet.ValSet) (me : Option Nat) (skip : Bool)
+    (ins : List In) :
+    let n := ins.foldl stepIn (Node.init repaired height vals me skip)
+    savePanic ∉ n.out ∧ ∀ b, n.proposalBlock = some b → n.partsComplete = true ∧ n.proposalParts = some b := by
+  have g := run_good ins _ (init_good height vals me skip)
+  exact ⟨g.nsp, g.asm⟩
+
+/-- the invariant is inductive from ANY state that satisfies it, not only from a fresh node -/
+theorem step_keeps_assembled (n : Node) (i : In) (g : Good n) : Good (stepIn n i) := good_stepIn n i g
+
+/-- X10 (as found): a proposal that `defaultSetProposal` accepts while the block of that very part
+    set is already assembled leaves the block in place and empties its part set. -/
+theorem asFound_late_proposal_discards_parts (n : Node) (p : Proposal) (signer : Nat) (b : Name)
+    (hc : n.cfg.proposalKeepsParts = false) (hb : n.proposalBlock = some b)
+    (h0 : n.proposal = none) (h1 : p.height = n.height ∧ p.round = n.round) (h2 : n.step < Step.commit)
+    (h3 : p.polRound = -1) (h4 : proposalSigOk n signer false = true) :
+    (setProposal n p signer false).proposalBlock = some b ∧
+    (setProposal n p signer false).partsComplete = false := by
+  unfold setProposal
+  have e2 : ¬ Step.commit ≤ n.step := Nat.not_le_of_lt h2
+  simp [h0, h1.1, h1.2, e2, h3, h4, hc, hb]
+
+/-- … and the commit of that block then reaches `SaveBlock` with the incomplete part set. -/
+theorem incomplete_part_set_panics (n : Node) (h : Int) (bid : VoteSet.BlockID) (b : Name)
+    (hh : n.height = h) (hs : n.step = .commit) (hm : maj23 (precommits n n.commitRound) = some bid)
+    (hb : n.proposalBlock = some b) (hp : n.proposalParts = some (nameOf bid)) (he : b = nameOf bid)
+    (hv : isValid n b = true) (hc : n.partsComplete = false) :
+    savePanic ∈ (finalizeCommit n h).out := by
+  unfold finalizeCommit
+  subst he
+  simp [hh, hs, hm, hb, hp, hc, hv, emit, savePanic]
+
+/-- the whole history on a concrete node (an observer of 4 validators): +2/3 prevotes for block "b"
+    before any proposal, its parts, the proposal (from the round's proposer, validator 0), then
+    +2/3 precommits -/
+def lateProposal (cfg : Cfg) : Node :=
+  let n := Node.init cfg 1 v4 none false
+  let n := { n with validTab := [([0x62], 1, true)] }
+  let n := handleTimeout n 1 0 .newHeight
+  let n := handleMsg n (.vote ⟨0, [1], 1, 0, 1, bidOf [0x62], 1⟩ true) "p0"
+  let n := handleMsg n (.vote ⟨1, [2], 1, 0, 1, bidOf [0x62], 2⟩ true) "p1"
+  let n := handleMsg n (.vote ⟨2, [3], 1, 0, 1, bidOf [0x62], 3⟩ true) "p2"
+  let n := handleMsg n (.parts 1 0 [0x62]) "p0"
+  let n := handleMsg n (.proposal ⟨1, 0, [0x62], -1, []⟩ 0 false) "p0"
+  let n := handleMsg n (.vote ⟨0, [1], 1, 0, 2, bidOf [0x62], 4⟩ true) "p0"
+  let n := handleMsg n (.vote ⟨1, [2], 1, 0, 2, bidOf [0x62], 5⟩ true) "p1"
+  handleMsg n (.vote ⟨2, [3], 1, 0, 2, bidOf [0x62], 6⟩ true) "p2"
+
+theorem asFound_late_proposal_panics : savePanic ∈ (lateProposal { repaired with proposalKeepsParts := false }).out := by
+  decide
+
+theorem repaired_late_proposal_commits :
+    (lateProposal repaired).out.contains (.commit 1 [0x62]) = true ∧ hasPanic (lateProposal repaired) = false := by
+  decide
 
 /-! ### X9: bit arrays as a peer sends them (Model/BitArr.lean)
 
